@@ -425,7 +425,7 @@ def check_construct(case, ctx: Ctx):
 
 CLAUSES = [
     Clause("register", check_geom, gen=lambda t: geom_cases(),
-           budget={"quick": (8, 500), "thorough": (16, 40000)}),
+           budget={"quick": (8, 500), "thorough": (16, 15000)}),
     Clause("layout", check_layout, gen=lambda t: layout_cases(),
            budget={"quick": (4, 300), "thorough": (16, 10000)}),
     Clause("closure", check_closure, gen=lambda t: closure_cases(),
